@@ -76,7 +76,13 @@ class ScriptedOp(BaseEvolutionaryOperator):
                 operator_context.result_callback(BasePopulationEvaluationResult(
                     population=t.pop, expectation_values=tuple(float(F(v)) + 0.5 * i for i in range(len(t.pop.individuals))),
                     best_individual=t.pool[b], best_expectation_value=float(F(v))))
+        if step.get("fault"):
+            raise TransientFault(f"operator application {t.k} failed after reporting")
         return population
+
+
+class TransientFault(RuntimeError):
+    """a failure inside an operator application (e.g. a primitive job that fails) after it has already reported evaluations / results"""
 
 
 class ScriptedCriterion(EvolvingAnsatzMinimumEigensolverBaseTerminationCriterion):
@@ -131,6 +137,9 @@ def gen_script(rng):
             ev = [["count", 2], ["result", rng.randrange(npool), rat_str(rng.choice(vals)), False],
                   ["count", 1], ["result", rng.randrange(npool), rat_str(rng.choice(vals)), rng.random() < 0.3]]  # two results
         script.append({"est": est, "events": ev})
+    if rng.random() < 0.3:  # one application fails after having emitted its events (often one that reports a result, i.e. may reach a limit)
+        cands = [i for i, st in enumerate(script) if any(e[0] == "result" for e in st["events"])] if rng.random() < 0.7 else []
+        script[rng.choice(cands) if cands else rng.randrange(len(script))]["fault"] = True
     return script, npool
 
 
@@ -190,10 +199,13 @@ def one_run(ctx, prop, rng, cfg, script, npool, tag):
             outcome = "ok"
         except StopIteration:
             res, outcome = None, "exhausted"
+        except TransientFault:
+            res, outcome = None, "fault"
         except Exception as e:  # noqa: BLE001
             res, outcome = None, ("raised" if "without having evaluated any population" in str(e) else "exc:" + type(e).__name__ + ":" + str(e)[:60])
     nres = sum(1 for st in script for ev in st["events"] if ev[0] == "result")
-    ctx.case(inp, nontrivial=len(tape.applied) >= 2, tags=[tag, "outcome:" + outcome.split(":")[0], f"applied:{min(len(tape.applied), 6)}"])
+    ctx.case(inp, nontrivial=len(tape.applied) >= 2, tags=[tag, "outcome:" + outcome.split(":")[0], f"applied:{min(len(tape.applied), 6)}",
+                                                           "fault-scripted" if any(st.get("fault") for st in script) else "no-fault"])
 
     def violate(p, what, observed=None):
         if p == prop:
@@ -262,7 +274,8 @@ def one_run(ctx, prop, rng, cfg, script, npool, tag):
             violate("C05", "termination criterion was not reset exactly once at the start", crit.resets)
     # ------------------------------------------------------------------ model
     if drv is not None and not outcome.startswith("exc"):
-        r = drv.ask({"op": "solver.run", "cfg": cfg, "script": script})
+        fault_at = next((i for i, st in enumerate(script) if st.get("fault")), None)
+        r = drv.ask({"op": "solver.run", "cfg": cfg, "script": script, "fault_at": fault_at})
         impl = {"outcome": outcome, "started": len(tape.applied), "totals_at_start": [rep for _, rep, _ in tape.applied],
                 "gens_at_start": [g for _, _, g in tape.applied]}
         mod = {"outcome": r["outcome"], "started": r["started"], "totals_at_start": r["totals_at_start"], "gens_at_start": r["gens_at_start"]}
